@@ -34,6 +34,7 @@ type knobs struct {
 	pTInt       float64
 	pCloseRace  float64
 	pDyn        float64 // in-process: a side uses dynamic messages
+	pMismatch   float64 // single-response calls: the caller receives into another message type
 	maxMsgs     int
 	cloners     []int
 	allMsgKinds bool
@@ -144,7 +145,7 @@ var allCodes = []int32{1, 2, 3, 4, 5, 6, 7, 8, 9, 10, 11, 12, 13, 14, 15, 16, 17
 func (g *gen) status() *StatusSpec {
 	st := &StatusSpec{}
 	if g.p(g.k.pPlainErr / (g.k.pErr + 1e-9)) {
-		st.Plain = 1 + g.pick(4)
+		st.Plain = []int{1, 2, 3, 4, 7, 8}[g.pick(6)]
 		st.Msg = RawStr(statusMsgs[g.pick(len(statusMsgs))])
 		return st
 	}
@@ -236,6 +237,10 @@ func (g *gen) rpc(id int) *RPC {
 		if g.p(k.pJunkDst) {
 			inv.N = 1
 		}
+		if g.p(k.pMismatch) {
+			inv.N = 2
+			r.DynC = false
+		}
 		c = append(c, inv)
 		if g.p(0.15) {
 			hdrs()
@@ -286,7 +291,12 @@ func (g *gen) rpc(id int) *RPC {
 		for i := 0; i < nReq; i++ {
 			c = append(c, Op{K: "send", Msg: g.msg()})
 		}
-		c = append(c, Op{K: "closesend"}, recvOp())
+		ro := recvOp()
+		if g.p(k.pMismatch) {
+			ro.N = 2
+			r.DynC = false
+		}
+		c = append(c, Op{K: "closesend"}, ro)
 		h = append(h, Op{K: "recvall"})
 		hdrs()
 		sleepMaybe()
